@@ -8,14 +8,16 @@ from gv.model import dbutil
 
 ID = "C04"
 RULE = (
-    "Part 'gff3' (shards = id_spec form (13: None, 'ID', two lists, two dicts, ':seqid:', ':source:', list with ':seqid:', four "
-    "callables incl. autoincrement: and a list mixing callable and key) x featuretype pattern (3 quick / 4 thorough)): per line one of "
-    "{ID only, Name only, both, neither, two ID values, empty 'ID=' with Name} for 3 (quick) / 4 (thorough) lines x database {:memory:, "
-    "file closed and reopened}. Checked against a reference id handler: import rejected (ValueError) exactly when a consulted id "
-    "attribute is multi-valued; stored keys in file order; key uniqueness; look-up by key and by Feature returns the exact line; a "
-    "look-up result is the caller's own copy (editing it does not affect later look-ups); look-up by a Feature taken from another "
-    "database of the same lines in reverse order (only where keys do not depend on line order); five near-miss keys per key (key_1, "
-    "swapped case, truncated, trailing blank, 'nope') must be absent. Part 'gtf' (4 shards = the disable_infer_genes/transcripts "
+    "Part 'gff3' (shards = id_spec form (15: None, 'ID', two lists, two dicts, ':seqid:', ':source:', list with ':seqid:', ':start:', "
+    "list with ':start:' (the first line starts at 0), four callables incl. autoincrement: with a colon in the base and a list mixing "
+    "callable and key) x featuretype pattern (3 quick / 4 thorough)): per line one of {ID only, Name only, both, neither, two ID "
+    "values, empty 'ID=' with Name} for 3 (quick) / 4 (thorough) lines x database {:memory:, file closed and reopened}; the ID values "
+    "contain an underscore, a quote and an escaped per-cent sign. Checked against a reference id handler: import rejected (ValueError) "
+    "exactly when a consulted id attribute is multi-valued; stored keys in file order; key uniqueness; look-up by key and by Feature "
+    "returns the exact line; a look-up result is the caller's own copy (editing it does not affect later look-ups); look-up by a "
+    "Feature taken from another database of the same lines in reverse order (only where keys do not depend on line order); up to nine "
+    "near-miss keys per key (key_1, swapped case, truncated, trailing blank, 'nope', '_' replaced by a letter, '%' replaced by letters, "
+    "a bare '%', a run of '_' of the key's length) must be absent. Part 'gtf' (4 shards = the disable_infer_genes/transcripts "
     "combinations): 3 lines each gene/transcript/exon (27 patterns) x 5 settings {default spec, callable, dict without gene, force_gff, "
     "default spec with custom gtf_gene_key/gtf_transcript_key}; keys of file lines and of derived features, look-ups and absent raw "
     "keys are checked. Non-trivial = rejection is expected, or some line is Name-only / neither / empty ID=, or the spec is a callable; "
